@@ -306,6 +306,9 @@ theorem fresh_step (c : Cfg) {st : State} (hF : Fresh st) (op : Op) : Fresh (ste
         | reindex =>
           exact fresh_insert_live hF ⟨k0, k1⟩ h (fun x => by simp [lookup_insert])
     | setKey id slot v =>
+      simp only
+      split
+      · exact hF
       simp only [setKey]
       cases h : AMap.lookup st.prim id with
       | none => exact hF
@@ -646,7 +649,11 @@ theorem kinv_step {c : Cfg} {s : Bool} {v : Nat} {st : State} (hK : KInv s v st)
         | true => rw [create_blocked hb]; exact hK
         | false => rw [create_state hb]; exact kinv_putRaw hK _ h1 h2
       | update id k0 k1 => exact kinv_update hK id k0 k1 h1 h2
-      | setKey id slot w => exact kinv_setKey (c := c) hK id slot w h1 h2
+      | setKey id slot w =>
+        simp only
+        split
+        · exact hK
+        · exact kinv_setKey (c := c) hK id slot w h1 h2
       | delete id =>
         simp only
         split
@@ -751,6 +758,9 @@ theorem step_submgr_kinv0 {st : State} (hI : ∀ v, KInv false v st) (hF : Fresh
       cases slot with
       | false => simp [submgr, submgrAccepts] at ha
       | true =>
+        simp only
+        split
+        · exact hI v
         simp only [setKey]
         cases h : AMap.lookup st.prim id with
         | none => exact hI v
@@ -825,6 +835,9 @@ theorem step_submgr_termLive {st : State} (hT : TermLive st) (op : Op) : TermLiv
         · exact ⟨rx, hrx⟩
     | update id k0 k1 => simp [submgr, submgrAccepts] at ha
     | setKey id slot w =>
+      simp only
+      split
+      · exact hT
       simp only [setKey]
       cases h : AMap.lookup st.prim id with
       | none => exact hT
